@@ -284,6 +284,11 @@ def run(ctx, eng):
                'likewise for the server\'s view of the client\'s window; '
                'and the upgrade step leaves the windows of stream 1 as the '
                'settings made them')
+    cm.include(ctx, eng, 'C11', {('ORD.settings', '_receive_settings_frame')},
+               'the decoded HTTP2-Settings frame goes through the ordinary '
+               'SETTINGS handler: the server\'s view equals the client\'s '
+               'settings only if that handler stores every setting of the '
+               'frame, whatever its identifier and whichever side we are')
     cm.include(ctx, eng, 'C11', {'OWN.ack-caller'},
                'the header and the preface are both filled from '
                'local_settings: they agree because nothing makes pending '
